@@ -132,12 +132,13 @@ def lawJudge (op : String) (args : List Sexp) (impl : Sexp) : Bool × String :=
     if decNat wa + decNat wna != 2 ^ d then (false, "law:weight-complement")
     else if decNat wor + decNat wand != decNat wa + decNat wb then (false, "law:weight-inclusion-exclusion")
     else (decNat wwo + decNat wnwo == 2 ^ decNat n, "law:weight-complement-wide")
-  | "law.essential", list [atom "L", ins, ess, d, flips] =>
+  | "law.essential", list [atom "L", ins, ess, d, flips, isConst] =>
     let inputs := decNames ins
     let essential := decNames ess
     let dummy := decName d
     if !(essential.all inputs.contains) then (false, "law:essential-subset-of-inputs")
     else if !inputs.contains dummy || essential.contains dummy then (false, "law:declared-only-is-not-essential")
+    else if decBool isConst && !essential.isEmpty then (false, "law:constant-function-has-no-essential-input")
     else ((decList flips).all fun
       | list [u, diff] => !decBool diff || essential.contains (decName u)
       | _ => false, "law:flip-names-essential")
